@@ -158,6 +158,11 @@ func cmdCheck(args []string) int {
 				to = d
 			}
 		}
+		if violations > 0 && to > time.Minute {
+			// a violation has been reproduced already: the verdict is decided, the remaining
+			// harnesses are informative and get a short budget
+			to = time.Minute
+		}
 		e.params = hc.Params
 		h := e.RunHarness(hc.H, hc.MaxPaths, to)
 		h.Params = hc.Params
